@@ -1,8 +1,8 @@
 #!/bin/sh
-# tools/seedrun.sh <PROP> <n> [check ...]: apply /var/tmp/seeded/<PROP>/<n>/patch.diff in the scratch
+# tools/seedrun.sh <PROP> <n> [check ...]: apply $SEEDED_DIR (default /var/tmp/seeded)/<PROP>/<n>/patch.diff in the scratch
 # worktree (never /repo), rebuild the harness copy, run the given checks (default: the property's own)
 P=$1; N=$2; shift 2
 CHECKS=${*:-$(echo $P | tr A-Z a-z)}
-D=/var/tmp/seeded/$P/$N
+D=${SEEDED_DIR:-/var/tmp/seeded}/$P/$N
 echo "##### $P/$N: $(python3 -c "import json;print(json.load(open('$D/meta.json'))['title'])" 2>/dev/null)"
 QV_WATCHDOG_SECS=${QV_WATCHDOG_SECS:-90} /verif/tools/mut.sh run $D/patch.diff $CHECKS 2>&1 | grep -aE "VIOLATION|HANG|sig=|tier=|^error|inconclusive:" | cut -c1-220
